@@ -190,6 +190,18 @@ var checkC13 = def("C13/window", func(c windowCase) error {
 	if err := judgeWindow(v, a, bb, r); err != nil {
 		return fmt.Errorf("%s: %v", where, err)
 	}
+	if withTable && !c.Quiet {
+		// a clipped result is a bound, not a value: the next search of the same root on the same
+		// table, with the full window, must still return the true value
+		s2, _ := cfg.make(c.Param)
+		_, again, _, serr := s2.Search(context.Background(), &search.Context{TT: tt}, b.Fork(), c.Depth)
+		if serr != nil {
+			return fmt.Errorf("%s: second search failed: %v", where, serr)
+		}
+		if r2, ok := refsearch.FromScore(again); !ok || !sameValue(r2, v) {
+			return fmt.Errorf("%s: after a search with the window (%v, %v) (which returned %v), a full-window search on the same table returns %v; the true value is %v", where, a, bb, r, again, v)
+		}
+	}
 	var labels []string
 	pos := "inside"
 	if !refsearch.Less(a, v) {
@@ -211,7 +223,7 @@ var checkC13 = def("C13/window", func(c windowCase) error {
 		labels = append(labels, "mate-valued-v")
 	}
 	if withTable {
-		labels = append(labels, "with-fresh-table")
+		labels = append(labels, "with-fresh-table", "full-window-search-afterwards-on-the-same-table")
 	}
 	if c.Quiet {
 		labels = append(labels, "quiescence-direct")
